@@ -220,7 +220,11 @@ def run_units(files_rel, repo, tier, prop):
                         rec["status"] = "ok"
                 elif r["verdict"] == "FAILED":
                     real = [c for c in r["failed_checks"] if "unwinding assertion" not in c and "unsupported" not in c.lower() and "not currently supported" not in c.lower()]
-                    if r["timeout"] or r["oom"] or not real:
+                    if (r["timeout"] or r["oom"]) and rec["class"] == "bounded":
+                        # a bounded stand-in that does not finish proves nothing and refutes nothing: recorded, no effect on the verdict
+                        rec["status"] = "not_completed"
+                        result.setdefault("not_completed", []).append("%s (%s)" % (h["name"], "timeout" if r["timeout"] else "out of memory"))
+                    elif r["timeout"] or r["oom"] or not real:
                         rec["status"] = "undecided"
                         result["undecided"].append("kani %s: %s" % (h["name"], "timeout" if r["timeout"] else ("out of memory" if r["oom"] else "unwinding/unsupported-construct failure only: %s" % r["failed_checks"][:3])))
                     else:
@@ -229,6 +233,9 @@ def run_units(files_rel, repo, tier, prop):
                         rec["all_failed_checks"] = real[:10]
                         rec["output_tail"] = r["body"][-3000:]
                         rec["witness"] = playback(scratch, crate, h, tdir)
+                elif r["timeout"] and rec["class"] == "bounded":
+                    rec["status"] = "not_completed"
+                    result.setdefault("not_completed", []).append("%s (timeout)" % h["name"])
                 else:
                     rec["status"] = "undecided"
                     result["undecided"].append("kani %s: no verdict (%s)" % (h["name"], "timeout" if r["timeout"] else "tool failure"))
